@@ -16,6 +16,10 @@ pub mod std_specs {
         where F: ::std::ops::FnOnce() -> ::std::option::Option<T> + ::std::marker::Destruct, T: ::std::marker::Destruct,
         requires o is None ==> call_requires(f, ()),
         ensures o is Some ==> r == o, o is None ==> call_ensures(f, (), r);
+    pub assume_specification<T, E, F, O>[::std::result::Result::<T, E>::or_else](o: ::std::result::Result<T, E>, f: O) -> (r: ::std::result::Result<T, F>)
+        where O: ::std::ops::FnOnce(E) -> ::std::result::Result<T, F> + ::std::marker::Destruct,
+        requires o is Err ==> call_requires(f, (o->Err_0,)),
+        ensures o is Ok ==> r is Ok && r->Ok_0 == o->Ok_0, o is Err ==> call_ensures(f, (o->Err_0,), r);
     pub assume_specification<'a>[<String as PartialEq<&'a str>>::eq](a: &String, b: &&str) -> (r: bool) ensures r == (a@ == b@);
     pub assume_specification[String::as_bytes](s: &String) -> (r: &[u8]) ensures r@ == crate::spec::utf8(s@);
 }
